@@ -104,8 +104,10 @@ def check_case(ctx, case):
             return probs
         n = len(obs)
         try:
-            cov = pe.covariance(obs)
-            cor = pe.covariance(obs, correlation=True)
+            # the switch as users hand it over: a python bool, a numpy bool (result of a comparison), an int
+            flag = [True, np.True_, 1, np.bool_(True)][case['seed'] % 4]
+            cov = pe.covariance(obs, **({'correlation': [False, np.False_, 0][case['seed'] % 3]} if case['seed'] % 5 == 0 else {}))
+            cor = pe.covariance(obs, correlation=flag)
         except Exception as e:
             probs.append(('violation', 'covariance-exception', repr(e)[:200]))
             return probs
@@ -183,8 +185,9 @@ def check_case(ctx, case):
                     probs.append(('violation', 'smoothing-trace', '%r vs %r' % (np.trace(sm), np.trace(cor))))
                 # the public option: covariance(..., smooth=E) is the smoothed correlation matrix, rescaled by the errors
                 try:
-                    cs = pe.covariance(obs, correlation=True, smooth=E)
-                    cv = pe.covariance(obs, smooth=E)
+                    Earg = [E, np.int64(E), np.int32(E)][case['seed'] % 3]      # index computed with numpy
+                    cs = pe.covariance(obs, correlation=True, smooth=Earg)
+                    cv = pe.covariance(obs, smooth=Earg)
                     if np.max(np.abs(cs - sm)) > 1e-10:
                         probs.append(('violation', 'smooth-option-correlation', 'covariance(correlation=True, smooth=%d) is not the smoothed correlation matrix (max dev %r)' % (E, float(np.max(np.abs(cs - sm))))))
                     ref_ = np.diag(dv) @ sm @ np.diag(dv)
